@@ -521,7 +521,8 @@ func FuzzyMatchV2(caseSensitive bool, normalize bool, forward bool, input *util.
 			C0[off] = 1
 			if M == 1 && (forward && score > maxScore || !forward && score >= maxScore) {
 				maxScore, maxScorePos = score, off
-				if forward && bonus >= bonusBoundary {
+				// No later occurrence can score higher
+				if forward && bonus >= util.Max16(bonusBoundaryWhite, bonusBoundaryDelimiter) {
 					break
 				}
 			}
